@@ -500,6 +500,60 @@ func c09(c *Ctx) {
 			r.Check(!skipped && len(adv) >= 2 && len(del) >= 1, "C09.L4", fi.Name(), "no key is stepped over", c.P.Pos(fi.Node().Pos()), "every path from First()/Next() to the next Next() passes batch.Delete(iterator.Key())",
 				"the iterator is advanced twice without the key in between being deleted (e.g. an extra Next() after flushing a partial batch): entries inside the range survive DeleteRange, so raft finds stale entries after a truncation or compaction")
 		}
+		// the loop is left only when the iterator is exhausted: its exit edge implies that the continuation flag / the iterator's
+		// own result is false (a further conjunct such as a batch-size limit leaves part of the range behind)
+		{
+			info := fi.Info()
+			g := c.Graph(fi)
+			ast.Inspect(fi.Body(), func(n ast.Node) bool {
+				fs, ok := n.(*ast.ForStmt)
+				if !ok || fs.Cond == nil {
+					return true
+				}
+				hasDel := false
+				for _, call := range astx.Calls(fs.Body, false) {
+					if se, ok := ast.Unparen(call.Fun).(*ast.SelectorExpr); ok && se.Sel.Name == "Delete" {
+						hasDel = true
+					}
+				}
+				if !hasDel {
+					return true
+				}
+				// exit edge = the false edge of the loop condition
+				okExit := implied(c.clausesOf(info, fi.Node(), fs.Cond, false, 0), func(l lit) bool {
+					if l.Pos {
+						return false
+					}
+					switch x := ast.Unparen(l.E).(type) {
+					case *ast.Ident:
+						// a flag assigned only from iterator.First()/Next()
+						defs := defsOf(info, fi.Node(), astx.Obj(info, x))
+						if len(defs) == 0 {
+							return false
+						}
+						for _, d := range defs {
+							call, ok := ast.Unparen(d).(*ast.CallExpr)
+							if d == nil || !ok {
+								return false
+							}
+							se, ok := ast.Unparen(call.Fun).(*ast.SelectorExpr)
+							if !ok || (se.Sel.Name != "Next" && se.Sel.Name != "First") {
+								return false
+							}
+						}
+						return true
+					case *ast.CallExpr:
+						se, ok := ast.Unparen(x.Fun).(*ast.SelectorExpr)
+						return ok && (se.Sel.Name == "Next" || se.Sel.Name == "Valid")
+					}
+					return false
+				})
+				_ = g
+				r.Check(okExit, "C09.L4", fi.Name(), "the delete loop ends only when the iterator is exhausted", c.P.Pos(fs.Cond.Pos()), "the loop's exit edge implies !<iterator has more>",
+					"DeleteRange can leave its loop before the iterator is exhausted (an extra condition such as a batch-size limit): entries at the end of the range survive — after a truncation of a conflicting suffix raft finds stale entries, after a compaction the log copy keeps folded ones")
+				return true
+			})
+		}
 		r.Check(okDel, "C09.L4", fi.Name(), "deletes every key of the range", c.P.Pos(fi.Node().Pos()), "unconditional batch.Delete(iterator.Key()) in the loop", "DeleteRange does not delete every key the iterator yields")
 	}
 	var _ = cfgx.NoReturn
